@@ -138,6 +138,11 @@ int main(void) {
 			if (res != KSI_OK) printf("K parse%d\n", res);
 			else printf("K %d\n", KSI_CalendarHashChain_verifyCompatibilityTo(ch[0], ch[1]));
 			KSI_CalendarHashChain_free(ch[0]); KSI_CalendarHashChain_free(ch[1]);
+		} else if (!strcmp(tok[0], "ALGS")) {
+			/* ALGS -> G <id>:<digest length, 0 = not defined>:<supported by the build> ... for the algorithm ids 0..15 */
+			printf("G");
+			for (i = 0; i < 16; i++) printf(" %d:%u:%d", i, KSI_getHashLength((KSI_HashAlgorithm)i), KSI_isHashAlgorithmSupported((KSI_HashAlgorithm)i) ? 1 : 0);
+			printf("\n");
 		} else if (!strcmp(tok[0], "TIMES")) {
 			unsigned long long pub = strtoull(tok[1], NULL, 10); int len = atoi(tok[2]); unsigned long v;
 			char lr[80];
